@@ -214,6 +214,18 @@ PROPS = {
              "transitivity, nulls last, value order). Canonical nulls only (DESIGN 5.4). distinct = (law family, type(s), value)",
         exhaustive=True,
     ),
+    "C16": dict(
+        bin="c16",
+        quick=NATIVE_QR, thorough=NATIVE_T,
+        floors={"unit_conversions_ok": 2000, "nat_conversions_ok": 50, "calendar_agreements": 500, "finer_and_back_ok": 300,
+                "calendar_roundtrips_ok": 500, "nat_absorbed_ok": 200, "nat_calendar_none_ok": 10},
+        technique="runtime monitoring: reference-model oracle (i128 floor arithmetic and the chrono calendar) over recorded conversions and operations",
+        rule="all 4x4 unit pairs x timestamps {0, +-1, +-(ratio-1), +-ratio, +-ratio+-1, range ends of the unit, i64 extremes, NaT, "
+             "random over the chrono-representable range, random dates 1678..2262 with sub-second parts}: into_unit and Cast<DateTime<_>> "
+             "against i128 floor division / multiplication and against chrono; finer-and-back identity; as_cr / From<chrono> round trip; "
+             "year..second getters against chrono; NaT -> NaT / None everywhere; every + - neg * duration_trunc on DateTime (4 units), "
+             "TimeDelta and Time with a NaT operand must give NaT. distinct = (unit pair, sign, magnitude) / (unit, year, month) / NaT operation",
+    ),
 }
 
 for _k in list(PROPS):
